@@ -9,7 +9,7 @@ def register(prop, J):
               "0-20 announcement events are applied; 2-32 concurrent round trips through the custom-typeref registry; all under the "
               "race detector; every case is non-trivial; distinct by case",
          jobs=[
-             J("race-v2", "v2", "resprops", "^TestC17", checks=(600, 30000), shards=(4, 16), prepare="prepare_resources",
+             J("race-v2", "v2", "resprops", "^TestC17", checks=(600, 90000), shards=(4, 16), prepare="prepare_resources",
                extra_pkgs=["dyn", "gendrv"], timeout=(1500, 3000), race=True, crash_is_violation=True),
          ],
          level_text="randomised concurrent executions under happens-before race detection, plus a serial differential: every "
